@@ -26,7 +26,9 @@
      SuccessLands        after a successful switch the player is on the destination    (H1)
      FailureSafe         a safe failure leaves the previous server (same connection where the
                          protocol allows) or a fallback                                (H2)
-     KickFallsBack       a kick from the current server sends the player to a fallback (H3) *)
+     KickFallsBack       a kick from the current server sends the player to a fallback (H3)
+     GoneIsNowhere       once the client has left, no backend connection of the player stays
+                         open and no server lists it, whatever was in flight          (S3) *)
 EXTENDS Naturals, Sequences, FiniteSets, TLC
 
 VARIABLES cur, att, calls, prev, since,
@@ -36,7 +38,7 @@ svars == <<cur, att, calls, prev, since, env>>
 CfgPhase == env.cfg
 Fallbacks == env.fallbacks
 
-NoSince == [n |-> 0, succ |-> {}, failed |-> FALSE, kicked |-> FALSE, keep |-> TRUE, limbo |-> FALSE]
+NoSince == [n |-> 0, succ |-> {}, failed |-> FALSE, kicked |-> FALSE, quit |-> FALSE, keep |-> TRUE, limbo |-> FALSE]
 Obs0(s) == [current |-> s, alive |-> TRUE, open |-> <<s>>, openids |-> <<"init">>, lists |-> {s}]
 
 SInit(s, e) == /\ cur = s /\ att = {} /\ calls = <<>> /\ prev = Obs0(s) /\ since = NoSince /\ env = e
@@ -101,6 +103,10 @@ Ret(t, status, beh) ==
 Kick == /\ since' = [since EXCEPT !.kicked = TRUE]
         /\ UNCHANGED <<cur, att, calls, prev, env>>
 
+\* the client leaves the proxy (whatever attempts are under way)
+Quit == /\ since' = [since EXCEPT !.quit = TRUE]
+        /\ UNCHANGED <<cur, att, calls, prev, env>>
+
 Only(s) == IF s = "none" THEN <<>> ELSE <<s>>
 OnlySet(s) == IF s = "none" THEN {} ELSE {s}
 
@@ -109,20 +115,21 @@ ObsOk(o) ==
     /\ o.alive => /\ o.open = Only(o.current)                                    \* S1 OneBackend
                   /\ o.lists = OnlySet(o.current)                                \* S2 ListsConsistent
                   /\ o.current = cur                                             \* S4 API = events
-    /\ ~o.alive => (o.open = <<>> /\ o.lists = {})                               \* S3
+    /\ ~o.alive => (o.open = <<>> /\ o.lists = {})                               \* S3 gone = nowhere
+    /\ since.quit => ~o.alive                                                   \* a client that quit is gone
     \* expectations about where the player ends up only make sense for a player that was
     \* connected to the proxy (and, for H2/H3, on a server) at the previous quiescent point
-    /\ (prev.alive /\ since.n > 0 /\ since.succ = {} /\ ~since.failed /\ ~since.kicked)   \* H0 NoSideEffects
+    /\ (prev.alive /\ ~since.quit /\ since.n > 0 /\ since.succ = {} /\ ~since.failed /\ ~since.kicked)   \* H0 NoSideEffects
           => (o.alive /\ o.current = prev.current /\ o.openids = prev.openids)
-    /\ (prev.alive /\ since.succ # {} /\ ~since.failed /\ ~since.kicked)                  \* H1 SuccessLands
+    /\ (prev.alive /\ ~since.quit /\ since.succ # {} /\ ~since.failed /\ ~since.kicked)                  \* H1 SuccessLands
           => (o.alive /\ o.current \in since.succ)
-    /\ (prev.alive /\ prev.current # "none"                                               \* H2 FailureSafe
+    /\ (prev.alive /\ ~since.quit /\ prev.current # "none"                                \* H2 FailureSafe
            /\ since.n = 1 /\ since.failed /\ ~since.kicked /\ since.succ = {})
           => /\ o.alive
              /\ \/ (o.current = prev.current /\ (since.keep => o.openids = prev.openids))
                 \/ (~since.keep /\ o.current \in Fallbacks)
                 \/ (since.limbo /\ o.current = "none")
-    /\ (prev.alive /\ prev.current # "none" /\ since.n = 0 /\ since.kicked)               \* H3 KickFallsBack
+    /\ (prev.alive /\ ~since.quit /\ prev.current # "none" /\ since.n = 0 /\ since.kicked)               \* H3 KickFallsBack
           => IF Fallbacks \ {prev.current} = {} THEN ~o.alive
              ELSE o.alive /\ o.current \in Fallbacks \ {prev.current}
 
